@@ -86,6 +86,39 @@ func fsStartSim(r *simcore.Run) {
 		}
 		r.Count("kubelet-volumes", 1)
 	}
+	// a file of the source moves to another name: the same rules under a new source id. The processor refuses a rule set
+	// while another source still has the very same rules active (their path expressions are owned)
+	rec.ConflictOnEqualContent = true
+	move := func(from, to string) {
+		if !kubelet {
+			os.Rename(path(from), path(to))
+			return
+		}
+		v := 0
+		for _, x := range version {
+			if x > v {
+				v = x
+			}
+		}
+		vdir := filepath.Join(dir, fmt.Sprintf("..v%dm", v))
+		os.Mkdir(vdir, 0o700)
+		if old, err := os.ReadDir(filepath.Join(dir, "..data")); err == nil {
+			for _, e := range old {
+				if b, err := os.ReadFile(filepath.Join(dir, "..data", e.Name())); err == nil {
+					n := e.Name()
+					if n == from {
+						n = to
+					}
+					os.WriteFile(filepath.Join(vdir, n), b, 0o600)
+				}
+			}
+		}
+		os.Symlink(filepath.Base(vdir), filepath.Join(dir, "..data_tmp"))
+		os.Rename(filepath.Join(dir, "..data_tmp"), filepath.Join(dir, "..data"))
+		// (the kubelet creates the links of new keys first and removes those of dropped keys afterwards)
+		os.Symlink(filepath.Join("..data", to), path(to))
+		os.Remove(path(from))
+	}
 	if singleFile {
 		names = names[:1]
 		src = path("a.yaml")
@@ -99,7 +132,7 @@ func fsStartSim(r *simcore.Run) {
 
 	type op struct {
 		name string
-		kind int // 0 write next version, 1 remove, 2 write a version that is not a rule set
+		kind int // 0 write next version, 1 remove, 2 write a version that is not a rule set, 3 move the file to the name c.yaml
 	}
 	var plan []op
 	for i, n := 0, 1+s.Draw(4, "writes"); i < n; i++ {
@@ -109,6 +142,8 @@ func fsStartSim(r *simcore.Run) {
 		}
 		if singleFile {
 			o.kind = 0 // the configured file is replaced by new versions (atomically, as editors and deployment tools do)
+		} else if s.Draw(6, "move-the-file") == 5 {
+			o.kind = 3
 		}
 		plan = append(plan, o)
 	}
@@ -120,7 +155,7 @@ func fsStartSim(r *simcore.Run) {
 	var startErr error
 	sch.Go("provider-start", func() { startErr = p.Start(context.Background()) })
 	var opsLog []string
-	wroteInvalid := false
+	wroteInvalid, moved := false, false
 	sch.Go("writer", func() {
 		v := 1
 		for _, o := range plan {
@@ -129,6 +164,16 @@ func fsStartSim(r *simcore.Run) {
 			if o.kind == 0 {
 				write(o.name, v, true)
 				opsLog = append(opsLog, fmt.Sprintf("write %s v%d", o.name, v))
+			} else if o.kind == 3 {
+				_, errFrom := os.Stat(path(o.name))
+				_, errTo := os.Lstat(path("c.yaml"))
+				if errFrom == nil && errTo != nil {
+					move(o.name, "c.yaml")
+					version["c.yaml"] = version[o.name]
+					delete(version, o.name)
+					opsLog = append(opsLog, "move "+o.name+" to c.yaml")
+					moved = true
+				}
 			} else if o.kind == 2 {
 				write(o.name, v, false)
 				wroteInvalid = true
@@ -162,6 +207,10 @@ func fsStartSim(r *simcore.Run) {
 		return
 	}
 	r.Logf("writer: %v", opsLog)
+	if moved {
+		names = append(names, "c.yaml")
+		r.Count("files-moved-to-another-name", 1)
+	}
 	// the final content of the directory
 	want := map[string]string{}
 	for _, n := range names {
